@@ -1,8 +1,8 @@
 (* Actual/OutputActual.v — the quirk vector claimed for the current tree (hand-maintained; tied to the
    code by the correspondence check, and listed flag-by-flag in /verif/known.d/C06.json).
-   q_sarif_unsanitized, q_syntax_line_zero, q_dry_empty_config_crashes stay `true` = "as the source has it": the three
-   defects were repaired in /repo (d9a5951, f9c24d2, af4580b), the faithful model reads the repaired templates / default /
-   guard from Gen/OutputGen.v and the main theorems now hold for it without a guard on these flags.  Should a repair be
+   q_sarif_unsanitized, q_syntax_line_zero, q_dry_empty_config_crashes, q_group_missing_config_ignored stay `true` = "as the
+   source has it": the four defects were repaired in /repo (d9a5951, f9c24d2, af4580b, d92455c), the faithful model reads the repaired templates / default /
+   guard / existence check from Gen/OutputGen.v and the main theorems now hold for it without a guard on these flags.  Should a repair be
    reverted, the faithful model reproduces the defect again and the check reports the entry recorded as fixed. *)
 From TL Require Import Lib.Base Model.Output.
 
